@@ -76,7 +76,14 @@ ParseAgrees(r) ==
   ("text" \in DOMAIN r /\ "ast" \in DOMAIN r) =>
      LET p == GR!Parse(r.text) IN
      p.sentence /\ ((~p.u /\ ~GR!IsBad(p.t)) => GR!TreeSame(p.t, r.ast))
-TwinOK(r) == "twin" \in DOMAIN r => (SameOutcome(r.out, r.twin.out) /\ Len(r.log) = Len(r.twin.log))
+\* (the twin of a concurrent execution is the SAME program run alone: where the program ranges over a map it builds
+\*  itself, the two runs may legitimately take different iteration orders, so the twin only has to be a pinned behaviour
+\*  of the specification as well -- C05: "up to the unspecified iteration order of maps")
+TwinOK(r, fs) ==
+  "twin" \in DOMAIN r =>
+     \/ (SameOutcome(r.out, r.twin.out) /\ Len(r.log) = Len(r.twin.log))
+     \/ (r.twin.src = "alone" /\ \E fin \in fs : ~fin.dev /\ Explains(fin, [r EXCEPT !.out = r.twin.out, !.log = r.twin.log])
+                               /\ \E fin2 \in fs : ~fin2.dev /\ Explains(fin2, r))
 
 Init == l = 1 /\ bad = << >> /\ ndev = 0
 Next == /\ l <= Len(Rec)
@@ -84,7 +91,7 @@ Next == /\ l <= Len(Rec)
         /\ LET r == Rec[l]
                fs == Finals(r)
            IN
-           /\ bad' = IF (\E fin \in fs : Explains(fin, r)) /\ TwinOK(r) /\ PureOK(r) /\ ParseAgrees(r) THEN bad ELSE Append(bad, r.id)
+           /\ bad' = IF (\E fin \in fs : Explains(fin, r)) /\ TwinOK(r, fs) /\ PureOK(r) /\ ParseAgrees(r) THEN bad ELSE Append(bad, r.id)
            /\ ndev' = IF r.out.k \in {"v", "e"} /\ \A fin \in fs : fin.dev THEN ndev + 1 ELSE ndev
 Spec == Init /\ [][Next]_vars
 
